@@ -453,7 +453,7 @@ func TestVerifC11Meta(t *testing.T) {
 	r.SetRule("Each case fills 2 exported hash slots + 1 foreign slot of a fresh metadata store with PRNG rows through the public pkg/db/meta writers (users, devices, channels, subscribers, memberships, channel-latest, plugin bindings, runtime meta, message events). Paths: ExportHashSlotSnapshot->ImportHashSlotSnapshot; OpenHashSlotSnapshot->ImportHashSlotSnapshotReader; OpenBackupHashSlotSnapshot->Verify/Inspect->ImportHashSlotSnapshotReaderForRestoreWithStats; Replay->RestoreSnapshotWriter; each into a target pre-filled with other rows in the same slots (replaced) and in another slot (untouched); oracle = byte-equal re-export + typed read-back of every modelled row. Faults on the stream against a pre-filled target that must stay byte-identical: every truncation class, bit flips on every header byte / entry length field / trailer / PRNG offsets, extension, entry reordering/duplication, count edits, foreign hash slot, raw and with recomputed checksum. Retry: import interrupted at the K-th context poll then retried. Non-trivial = source slot holds rows of >= 4 tables; distinct by (path, row-count bucket, tables) / (fault class, outcome).")
 
 	root := t.TempDir()
-	nCases := r.N(8, 100)
+	nCases := r.N(12, 100)
 	nRandom := r.N(40, 160)
 	for ci := 0; ci < nCases; ci++ {
 		if r.Skip(ci) {
